@@ -298,8 +298,8 @@ func gen(r *Rng, tier string, emit Emit) {
 	perImage := 36
 	all := false
 	if tier == "thorough" {
-		n = 1500
-		perImage = 200
+		n = 900
+		perImage = 100
 	}
 	// directed: the free-marker class (large image: implementation only)
 	if img, base := bigFreeMarkerImage(); base >= 0 {
